@@ -47,8 +47,14 @@ RPowSafe(a, e) == IF e = 0 THEN [ok |-> TRUE, r |-> [n |-> 1, d |-> 1]]
 
 \* "open": a value outside the modelled arithmetic (fractional exponent, magnitude beyond exact range): any observed value is accepted for it
 OpenV == [k |-> "open", n |-> 0, d |-> 1]
+Infinite(x) == x.k \in {"pinf", "ninf"}
 Arith(op, x, y) ==
   IF x.k = "open" \/ y.k = "open" THEN OpenV
+  \* math.Pow(x, 0) = 1 and math.Pow(1, y) = 1 for EVERY other operand, NaN and the infinities included
+  ELSE IF op = "pow" /\ IsRat(y) /\ y.n = 0 /\ ~IsRat(x) THEN (IF Inexact(y) THEN OpenV ELSE One)
+  ELSE IF op = "pow" /\ IsRat(x) /\ x.n = 1 /\ x.d = 1 /\ ~IsRat(y) THEN (IF Inexact(x) THEN OpenV ELSE One)
+  \* arithmetic on an infinity is outside the modelled domain (the result may be an infinity or NaN)
+  ELSE IF Infinite(x) \/ Infinite(y) THEN OpenV
   ELSE IF ~IsRat(x) \/ ~IsRat(y) THEN NaNV
   ELSE LET a == R(x) b == R(y) IN
        IF ~SmallR(a) \/ ~SmallR(b) THEN OpenV ELSE
@@ -68,7 +74,9 @@ Arith(op, x, y) ==
 CmpOps == {"eq", "neq", "gt", "gte", "lt", "lte"}
 Holds(op, x, y) == IF ~IsRat(x) \/ ~IsRat(y) THEN op = "neq" ELSE RCmp(op, R(x), R(y))
 \* a comparison of equal values of which one is only known up to rounding can go either way
-Undet(x, y) == IsRat(x) /\ IsRat(y) /\ (Inexact(x) \/ Inexact(y)) /\ R(x) = R(y)
+\* (so can one with an operand outside the modelled arithmetic: an infinity, an open value)
+Undet(x, y) == \/ x.k \in {"open", "pinf", "ninf"} \/ y.k \in {"open", "pinf", "ninf"}
+               \/ (IsRat(x) /\ IsRat(y) /\ (Inexact(x) \/ Inexact(y)) /\ R(x) = R(y))
 IsOpen(x) == x.k = "open"
 NumLt(x, y) == IsRat(x) /\ IsRat(y) /\ RLt(R(x), R(y))
 
